@@ -246,12 +246,29 @@ def check_guarded_fields(ctx, rid, cls, only_fields=None, doc=None, only_functio
     recs = list(fb.records(tmpl=cls))
     if not recs:
         ctx.broken("no instantiation of class %s found (anchor vanished)" % cls)
+    tab = dict(tab)
     for r in recs:
         for fl in r.fields:
             if fl["name"] not in tab:
-                ctx.broken("unclassified field %s::%s (add it to tables/guards.json after reading the code)"
-                           % (cls, fl["name"]))
+                # a member added after the table was written.  It is classified from its declaration where that is
+                # enough (atomic, mutex, condition variable, const); any other member gets the lockset discipline of
+                # Eraser: some mutex of the class must be held at EVERY access outside constructors and destructor
+                # (exclusively at every write) - whichever mutex that is
+                t = fl["type"]
+                if re.match(r"^(const )?std::atomic(<|_)", t):
+                    tab[fl["name"]] = {"kind": "atomic", "inferred": True}
+                elif is_mutex_type(t):
+                    tab[fl["name"]] = {"kind": "mutex", "inferred": True}
+                elif "condition_variable" in t:
+                    tab[fl["name"]] = {"kind": "condvar", "inferred": True}
+                elif fl.get("const") or t.startswith("const "):
+                    tab[fl["name"]] = {"kind": "immutable", "inferred": True}
+                else:
+                    tab[fl["name"]] = {"kind": "lockset", "inferred": True}
+                ctx.note("field %s::%s is not in tables/guards.json; treated as '%s' from its declaration (%s)"
+                         % (cls, fl["name"], tab[fl["name"]]["kind"], t[:60]))
     n = 0
+    locksets = {}      # inferred field -> [(site, held set (mutex, mode), is write, top, inst)]
     requires = {}      # private helper id -> list of (guard path, mode, site, what)
     for f, top in class_functions(fb, cls):
         if top.kind in ("ctor", "dtor"):
@@ -292,6 +309,10 @@ def check_guarded_fields(ctx, rid, cls, only_fields=None, doc=None, only_functio
                 continue
             pos = f.pos_of(st)
             acc, user = effective_access(eng, f, st)
+            if kind == "lockset":
+                held = set((m, mo) for m, mo, _k in la.held_at(pos)) if pos is not None else set()
+                locksets.setdefault(name, []).append((site, held, acc not in READ_KINDS, top, inst))
+                continue
             if kind == "immutable":
                 ok = acc in READ_KINDS
                 ctx.ob(rid, ok, site, "%s is never written after construction" % name,
@@ -355,6 +376,25 @@ def check_guarded_fields(ctx, rid, cls, only_fields=None, doc=None, only_functio
                 requires.setdefault(top.id, []).append((guard, need, site, what, top, inst))
                 continue
             ctx.ob(rid, ok, site, what, detail, fn=top.label, inst=inst)
+            n += 1
+    # inferred fields: the intersection of the locks held over all accesses must not be empty
+    for name, accs in locksets.items():
+        writes = [a for a in accs if a[2]]
+        if not writes:
+            ctx.ob(rid, True, accs[0][0], "new member %s is never written after construction" % name, "", fn=accs[0][3].label, inst=accs[0][4])
+            n += 1
+            continue
+        common = None
+        for site, held, is_w, top, inst in accs:
+            cand = {m for m, mo in held if (mo == "X" or not is_w)}
+            common = cand if common is None else (common & cand)
+        for site, held, is_w, top, inst in accs:
+            cand = {m for m, mo in held if (mo == "X" or not is_w)}
+            ok = bool(common)
+            ctx.ob(rid, ok, site, "new member %s is accessed under one and the same mutex everywhere%s" % (
+                name, " (%s)" % ", ".join(sorted(c[5:] for c in common)) if common else ""),
+                "" if ok else "no mutex is held at every access of %s (here: %s): the member is written by one thread while "
+                "another reads or writes it" % (name, ", ".join(sorted(c[5:] for c in cand)) or "nothing"), fn=top.label, inst=inst)
             n += 1
     # callers of private helpers
     for hid, reqs in requires.items():
